@@ -1,1 +1,34 @@
-From PdfV Require Import Base.Prelude.
+(** Pins/C03.v — statements of the C03 theorems, pinned. *)
+From PdfV Require Import Base.Prelude Gen.Generated Lex.Lexer Lex.StrLexer Lex.LexProofs Lex.NumProofs Lex.StrProofs
+  Syn.Prim Syn.Utf8 Syn.Parser Syn.Spells Syn.ParserProofs Syn.NameProofs Syn.RenderProofs Properties.C03.
+
+Check C03_token_regular : forall sp tok rest p,
+  sep sp -> tok <> [] -> Forall (fun b => is_reg b = true) tok -> boundary rest ->
+  next_word (mkLx p (sp ++ tok ++ rest)) = Ok (tok, p + lenN sp, mkLx (p + lenN sp + lenN tok) rest).
+Check C03_integer : forall sg ds, sign_ok sg -> ds <> [] -> all_digits ds = true ->
+  let v := Z.of_N (N_of_dec ds) in
+  let z := if match sg with [c] => c =? MINUS | _ => false end then Z.opp v else v in
+  (-2147483648 <= z <= 2147483647)%Z -> int_word (sg ++ ds) z.
+Check C03_real : forall sg ip fp, sign_ok sg -> all_digits ip = true -> all_digits fp = true -> ip ++ fp <> [] ->
+  real_word (sg ++ ip ++ DOT :: fp).
+Check C03_name : forall s e, name_enc s e -> is_utf8 s = true -> name_word (SLASH :: e) s.
+Check C03_string : forall out text rest,
+  spell_run (RPAREN :: rest) 0 out text 0 ->
+  string_lex (text ++ RPAREN :: rest) = Ok (out, lenN (text ++ [RPAREN])).
+Check C03_hexstring : forall out text rest, hex_run out text ->
+  hexstring_lex (text ++ hexstr_end :: rest) = Ok (out, lenN (text ++ [hexstr_end])).
+Check C03_value : forall v its, spells v its ->
+  forall fuel R cx depth s k s_end,
+    (length its <= fuel)%nat -> vdepth v <= depth ->
+    Lexes s (its ++ k) s_end -> follow_ok k s_end -> nostream_at k s_end ->
+    exists s1, parse_fuel fuel R cx F_ANY depth s = Ok (v, s1) /\ Lexes s1 k s_end.
+Check C03_value_bytes : forall v its text tl R cx p,
+  spells v its -> vdepth v <= MAX_DEPTH -> renders its text tl ->
+  forall p', p' + lenN tl = p + lenN text ->
+  follow_ok [] (mkLx p' tl) -> nostream_at [] (mkLx p' tl) ->
+  parse_ctx R cx F_ANY MAX_DEPTH (mkLx p text) = Ok (v, mkLx p' tl).
+Check C03_sequence : forall vs body, spells_list vs body ->
+  forall fuel R cx depth s k s_end,
+    (length body <= fuel)%nat -> ldepth vs <= depth ->
+    Lexes s (body ++ k) s_end -> follow_ok k s_end -> nostream_at k s_end -> notR_at k s_end ->
+    exists s1, parse_n (length vs) fuel R cx depth s = Ok (vs, s1) /\ Lexes s1 k s_end.
